@@ -456,6 +456,40 @@ fn g_utils() -> Vec<P> {
     v
 }
 
+// 9b. utils descriptions fed to the decapsulator: [first_len, inter_len, end_len, label_kind(0,1,2 ; 10,11 = re-use after a 6B / 3B packet), ptype]
+fn s_utils_decap(p: &P) -> Option<String> {
+    let (n1, n2, n3, lk, pt) = (p[0] as usize, p[1] as usize, p[2] as usize, p[3], p[4] as u16);
+    let full = label_of(lk % 10); let lb = lbytes(&full);
+    let wire = if lk >= 10 { Label::ReUse } else { full };
+    let wl = lbytes(&wire);
+    let pdu = pdu_of(n1 + n2 + n3);
+    let total = (pdu.len() + 2 + wl.len()) as u16;
+    let mut d = dec(2, 200, 3);
+    let mut buf = vec![0u8; 400];
+    no_panic(|| {
+        if lk >= 10 {
+            let x = GseCompletePacket::new((2 + lb.len() + 3) as u16, pt, full, &[9, 9, 9]); x.generate(&mut buf);
+            match d.decap(&buf[..4 + lb.len() + 3]) { Ok((DecapStatus::CompletedPkt(b, md), _)) => { if md.label() != full { return Some("complete packet: wrong label".to_string()); } let _ = d.provision_storage(b); }
+                other => return Some(format!("decapsulator does not accept the generated complete packet: {:?}", other.map(|_| ()).map_err(|e| e.0))) }
+        }
+        let crc = crc_for(&pdu, pt, total, &wl);
+        let x = GseFirstFragPacket::new((5 + wl.len() + n1) as u16, 7, total, pt, wire, &pdu[..n1]); x.generate(&mut buf);
+        match d.decap(&buf[..7 + wl.len() + n1]) { Ok((DecapStatus::FragmentedPkt(md), n)) => { if md.label() != full || md.protocol_type() != pt || n != 7 + wl.len() + n1 { return Some("first fragment accepted with other field values".to_string()); } }
+            other => return Some(format!("decapsulator does not accept the generated first fragment: {:?}", other.map(|_| ()).map_err(|e| e.0))) }
+        let x = GseIntermediatePacket::new((1 + n2) as u16, 7, &pdu[n1..n1 + n2]); x.generate(&mut buf);
+        match d.decap(&buf[..3 + n2]) { Ok((DecapStatus::FragmentedPkt(md), n)) => { if md.label() != full || md.protocol_type() != pt || n != 3 + n2 { return Some("intermediate fragment accepted with other field values".to_string()); } }
+            other => return Some(format!("decapsulator does not accept the generated intermediate fragment: {:?}", other.map(|_| ()).map_err(|e| e.0))) }
+        let x = GseEndFragPacket::new((5 + n3) as u16, 7, &pdu[n1 + n2..], crc); x.generate(&mut buf);
+        match d.decap(&buf[..7 + n3]) { Ok((DecapStatus::CompletedPkt(b, md), n)) => { if md.label() != full || md.protocol_type() != pt || n != 7 + n3 || md.pdu_len() != pdu.len() || b[..pdu.len()] != pdu[..] { return Some("end fragment accepted with other field values".to_string()); } None }
+            other => Some(format!("decapsulator does not accept the generated end fragment: {:?}", other.map(|_| ()).map_err(|e| e.0))) }
+    }).unwrap_or(Some("panicked on a well-formed description".into()))
+}
+fn g_utils_decap() -> Vec<P> {
+    let mut v = vec![];
+    for lk in [0i64, 1, 2, 10, 11] { for &n1 in &[0i64, 1, 2, 5, 17] { for &n2 in &[1i64, 4, 9, 30] { for n3 in 0..=9i64 { for &pt in &[0x0600i64, 0xFFFF] { v.push(vec![n1, n2, n3, lk, pt]); } } } } }
+    v
+}
+
 // ----------------------------------------------------------------------------------------------------------------
 // 10. extension constructor: [id, data_len]   and encap_ext round trip: [ptype, pdu_len, buf_len, chain selector, sent_before]
 fn s_ext_new(p: &P) -> Option<String> {
@@ -608,6 +642,7 @@ const SEARCHES: &[Search] = &[
     Search { name: "memory", props: &["C17", "C07", "C08", "C16"], f: s_memory, g: g_memory },
     Search { name: "peek", props: &["C19"], f: s_peek, g: g_peek },
     Search { name: "utils", props: &["C20"], f: s_utils, g: g_utils },
+    Search { name: "utils_decap", props: &["C20", "C02"], f: s_utils_decap, g: g_utils_decap },
     Search { name: "ext_rt", props: &["C13", "C06", "C09", "C12", "C04", "C15"], f: s_ext_rt, g: g_ext_rt },
 ];
 fn s_policy_dispatch(p: &P) -> Option<String> { if !p.is_empty() && p[0] >= 100 { s_policy_max(p) } else { s_policy(p) } }
